@@ -246,6 +246,8 @@ class DataArray(Entity, DataSet):
                 del self._h5group["polynom_coefficients"]
         else:
             dtype = DataType.Double
+            # convert first: a non-numeric value must fail before anything is written
+            coeff = np.array(coeff, dtype=dtype)
             self._h5group.write_data("polynom_coefficients", coeff, dtype)
         if self.file.auto_update_timestamps:
             self.force_updated_at()
